@@ -4,13 +4,21 @@ use crate::util::*;
 use serde_json::{json, Value};
 use zipora::io::var_int::{SignedVarInt, VarInt};
 use zipora::io::var_int_variants::{VarIntEncoder, VarIntStrategy};
+#[path = "c13_io.rs"]
+mod c13_io;
+#[path = "c13_ser.rs"]
+mod c13_ser;
+#[path = "c13_rd.rs"]
+mod c13_rd;
+#[path = "c13_coq.rs"]
+mod c13_coq;
 
 const HEADER: &str = r#"From ZV.Common Require Import Base Run.
-From ZV.C13 Require Import Model.
+From ZV.C13 Require Import Model ModelRun.
 Open Scope N_scope.
 Definition case_t : Type := N * N * list Z * list N * option (list Z).
 Definition ok (c : case_t) : bool :=
-  let '(op, s, ints, bytes, expect) := c in eqb_olz (run_case op s ints bytes) expect.
+  let '(op, s, ints, bytes, expect) := c in eqb_olz (run_case2 op s ints bytes) expect.
 "#;
 
 const STRATS: [(VarIntStrategy, &str); 7] = [
@@ -23,11 +31,50 @@ const STRATS: [(VarIntStrategy, &str); 7] = [
     (VarIntStrategy::Simd, "simd"),
 ];
 
-struct Ctx {
+pub struct Ctx {
     sum: Summary,
     shards: CoqShards,
     coq_budget: usize,
+    /// separate budget for the cells added after the varint codecs, so that they are always represented
+    coq_budget2: usize,
+    coq_used2: usize,
+    op_used: std::collections::HashMap<u32, usize>,
     rng: Rng,
+    tmp: String,
+    format_drift: bool,
+    /// probe mode (child process): every case is logged before it runs, so that a case that aborts the
+    /// process (allocation failure, stack overflow) can be named by the parent
+    probe_log: Option<std::fs::File>,
+    case_no: u64,
+    skip: Vec<u64>,
+}
+impl Ctx {
+    /// Called at the start of every new-cell case; false = the case is known to abort the process, do not run it.
+    pub fn gate(&mut self, cj: &Value) -> bool {
+        self.case_no += 1;
+        if self.skip.contains(&self.case_no) { return false; }
+        if let Some(f) = self.probe_log.as_mut() {
+            use std::io::Write;
+            let _ = writeln!(f, "{}", json!({"n": self.case_no, "case": cj}));
+            let _ = f.flush();
+        }
+        true
+    }
+}
+/// Run this binary again as a child on `spec`; returns (exited normally, last logged case).
+fn probe_child(args: &Args, spec: &Value, tag: &str) -> (bool, Option<Value>) {
+    let dir = format!("{}/probe_{}", args.out, tag);
+    std::fs::create_dir_all(&dir).ok();
+    let f = format!("{}/spec.json", dir);
+    std::fs::write(&f, spec.to_string()).ok();
+    let st = std::process::Command::new(std::env::current_exe().unwrap())
+        .args(["C13", "--seed", &args.seed.to_string(), "--tier", if args.thorough { "thorough" } else { "quick" }, "--out", &dir, "--replay", &f])
+        .stdout(std::process::Stdio::null()).stderr(std::process::Stdio::null()).status();
+    let ok = matches!(st, Ok(s) if s.success());
+    let last = std::fs::read_to_string(format!("{}/probe.log", dir)).ok()
+        .and_then(|t| t.lines().last().map(|l| l.to_string())).and_then(|l| serde_json::from_str::<Value>(&l).ok());
+    std::fs::remove_dir_all(&dir).ok();
+    (ok, last)
 }
 
 fn case_json(op: u32, s: usize, ints: &[i128], bytes: &[u8]) -> Value {
@@ -38,7 +85,11 @@ fn case_json(op: u32, s: usize, ints: &[i128], bytes: &[u8]) -> Value {
 impl Ctx {
     /// Register a case for evaluation by the Coq model, with the implementation's observation.
     fn coq(&mut self, op: u32, s: usize, ints: &[i128], bytes: &[u8], obs: &Option<Vec<i128>>, force: bool) {
-        if !force && self.shards.len() >= self.coq_budget { return; }
+        // a budget per operation, so that every modelled cell is represented among the Coq-evaluated cases
+        let cap = match op { 0..=3 => 230, 4..=7 => 160, 8..=13 => 110, 14 | 15 => 100, 16 | 17 => 50, 18 | 19 => 130, 20..=22 => 50, 30..=32 => 230, _ => 50 } * self.coq_budget / 2400;
+        let used = self.op_used.entry(op).or_insert(0);
+        if !force && *used >= cap { return; }
+        *used += 1;
         let term = format!(
             "({}, {}, {}, {}, {})",
             op, s, coq_z_list(ints.iter().cloned()), coq_bytes(bytes),
@@ -75,7 +126,7 @@ fn i64_boundaries() -> Vec<i64> {
     v.dedup();
     v
 }
-fn rand_u64(r: &mut Rng) -> u64 {
+pub fn rand_u64(r: &mut Rng) -> u64 {
     match r.below(4) {
         0 => *r.pick(&u64_boundaries()),
         1 => r.next() >> r.below(64),
@@ -83,7 +134,7 @@ fn rand_u64(r: &mut Rng) -> u64 {
         _ => r.next(),
     }
 }
-fn rand_i64(r: &mut Rng) -> i64 {
+pub fn rand_i64(r: &mut Rng) -> i64 {
     match r.below(4) {
         0 => *r.pick(&i64_boundaries()),
         1 => (r.next() as i64) >> r.below(64),
@@ -349,6 +400,29 @@ fn parse_ints(v: &Value) -> Vec<i128> {
 }
 
 fn run_one(cx: &mut Ctx, c: &Value) {
+    if let Some(cell) = c.get("cell").and_then(|x| x.as_str()) {
+        let tail = c13_io::u8s(&c["tail"]);
+        let ints = c13_io::u64s(&c["ints"]);
+        match cell {
+            "simd_varint/single" => c13_io::simd_single(cx, ints.first().copied().unwrap_or(0), &tail, true),
+            "simd_varint/batch" => c13_io::simd_batch(cx, &ints, &tail, true),
+            "data_io" => {
+                let items: Vec<c13_io::Item> = c["items"].as_array().map(|a| a.iter().filter_map(c13_io::Item::from_json).collect()).unwrap_or_default();
+                let p = c["p"].as_str().and_then(|s| s.parse().ok()).unwrap_or(0);
+                c13_io::data_io(cx, &items, c["out"].as_u64().unwrap_or(0) as usize, c["in"].as_u64().unwrap_or(0) as usize, &tail, p)
+            }
+            "endian" => c13_io::endian(cx, c["ints"].get(0).and_then(|x| x.as_str()).and_then(|s| s.parse::<u128>().ok()).unwrap_or(0), &tail, true),
+            "endian/bulk" => c13_io::endian_bulk(cx, &ints, c["from_little"].as_bool().unwrap_or(true)),
+            "endian/magic" => c13_io::endian_magic(cx),
+            "complex" => { let (k, i, s, t) = c13_ser::parse_case(c); c13_ser::complex(cx, k, &i, &s, &t) }
+            "smart_ptr" => { let (k, i, s, t) = c13_ser::parse_case(c); c13_ser::smart_ptr(cx, k, &i, &s, &t) }
+            "versioning" => { let (k, i, s, t) = c13_ser::parse_case(c); c13_ser::versioning(cx, k, &i, &s, &t) }
+            "reader" => { let (k, d, cfg, ops) = c13_rd::parse_reader(c); c13_rd::reader(cx, k, &d, &cfg, &ops, true) }
+            "writer" => { let (k, _, cfg, ops) = c13_rd::parse_reader(c); c13_rd::writer(cx, k, &cfg, &ops) }
+            _ => {}
+        }
+        return;
+    }
     let op = c["op"].as_u64().unwrap_or(0) as u32;
     let s = c["s"].as_u64().unwrap_or(0) as usize;
     let ints = parse_ints(&c["ints"]);
@@ -365,30 +439,154 @@ fn run_one(cx: &mut Ctx, c: &Value) {
     }
 }
 
+/// The cells beyond the varint codecs: SIMD batch varint, data input/output back ends, endian, complex types,
+/// smart pointers, versioned fields, buffered/ranged/zero-copy/mapped readers and writers.
+fn run_new_cells(cx: &mut Ctx, args: &Args) {
+    let ub = u64_boundaries();
+    let t = args.thorough;
+    // own random stream: the probe child and the parent must generate the same cases
+    cx.rng = Rng::new(args.seed.wrapping_mul(0xC13).wrapping_add(13));
+    cx.case_no = 0;
+    // corpus cases of these cells (witnesses of repaired defects and of the recorded findings)
+    if let Ok(rd) = std::fs::read_dir("corpus/C13").or_else(|_| std::fs::read_dir("/verif/corpus/C13")) {
+        let mut files: Vec<_> = rd.filter_map(|e| e.ok()).map(|e| e.path()).collect();
+        files.sort();
+        for p in files {
+            if let Some(v) = std::fs::read_to_string(&p).ok().and_then(|t| serde_json::from_str::<Value>(&t).ok()) {
+                let c = if v.get("case").is_some() { v["case"].clone() } else { v };
+                if c.get("cell").is_some() { run_one(cx, &c); cx.sum.dist("corpus_cases"); }
+            }
+        }
+    }
+    // SIMD varint
+    for &v in &ub { c13_io::simd_single(cx, v, &[], false); c13_io::simd_single(cx, v, &[0x80, 0x01], false); }
+    for k in 0..(if t { 6000 } else { 500 }) {
+        let mut r = cx.rng.clone();
+        let len = match r.below(5) { 0 => r.below(4), 1 => 4, 2 => 4 + r.below(6), 3 => 16 + r.below(20), _ => r.below(12) } as usize;
+        let xs: Vec<u64> = (0..len).map(|_| rand_u64(&mut r)).collect();
+        let tail = if k % 3 == 0 { r.bytes(40) } else { garbage(&mut r) }; // a long tail makes the AVX2 path eligible
+        let v = rand_u64(&mut r);
+        cx.rng = r;
+        c13_io::simd_batch(cx, &xs, &tail, false);
+        c13_io::simd_single(cx, v, &tail, false);
+    }
+    // data input / output: every output back end x every input back end, then random pairs
+    let fixed = vec![c13_io::Item::U8(0x80), c13_io::Item::U16(0x1234), c13_io::Item::Var(300), c13_io::Item::Str("h\u{e9}llo".into()), c13_io::Item::U32(0xDEADBEEF),
+        c13_io::Item::Bytes(vec![7; 130]), c13_io::Item::Skip(vec![1, 2, 3]), c13_io::Item::U64(u64::MAX), c13_io::Item::Var(u64::MAX), c13_io::Item::Raw(vec![9, 8]), c13_io::Item::RawStr("xyz".into())];
+    for o in 0..c13_io::N_OUT { for i in 0..c13_io::N_IN { c13_io::data_io(cx, &fixed, o, i, &[0xFE, 0x80], (o * 31 + i * 7) as u64); c13_io::data_io(cx, &[], o, i, &[], 0); } }
+    for _ in 0..(if t { 12000 } else { 900 }) {
+        let mut r = cx.rng.clone();
+        let n = match r.below(4) { 0 => r.below(3), 1 => 12 + r.below(20), _ => 1 + r.below(8) } as usize;
+        let items: Vec<c13_io::Item> = (0..n).map(|_| c13_io::rand_item(&mut r)).collect();
+        let (o, i, p) = (r.below(c13_io::N_OUT as u64) as usize, r.below(c13_io::N_IN as u64) as usize, r.next() >> 8);
+        let tail = garbage(&mut r);
+        cx.rng = r;
+        c13_io::data_io(cx, &items, o, i, &tail, p);
+    }
+    // endian
+    c13_io::endian_magic(cx);
+    for &v in &ub { c13_io::endian(cx, v as u128, &[], false); c13_io::endian(cx, ((v as u128) << 64) | 0x0102030405060708, &[0xFF, 0x00, 0x5A], false); }
+    for _ in 0..(if t { 5000 } else { 300 }) {
+        let mut r = cx.rng.clone();
+        let raw = ((r.next() as u128) << 64 | r.next() as u128) >> r.below(128);
+        let n = *r.pick(&[0usize, 1, 3, 4, 7, 8, 9, 15, 16, 17, 33]);
+        let xs: Vec<u64> = (0..n).map(|_| r.next()).collect();
+        let fl = r.chance(1, 2);
+        let tail = garbage(&mut r);
+        cx.rng = r;
+        c13_io::endian(cx, raw, &tail, false);
+        c13_io::endian_bulk(cx, &xs, fl);
+    }
+    // complex types, smart pointers, versioned fields
+    for k in 0..(if t { 20000 } else { 1500 }) {
+        let mut r = cx.rng.clone();
+        let ni = match r.below(4) { 0 => 0, 1 => 1, _ => r.below(14) } as usize;
+        let ns = match r.below(4) { 0 => 0, 1 => 1, _ => r.below(6) } as usize;
+        let ints: Vec<u64> = (0..ni).map(|_| if r.chance(1, 2) { r.below(6) } else { rand_u64(&mut r) }).collect();
+        let ss: Vec<String> = (0..ns).map(|_| c13_io::rand_string(&mut r)).collect();
+        let tail = garbage(&mut r);
+        // versions near the `since` boundaries
+        let vb = [c13_ser::ver_u64(1, 0, 0), c13_ser::ver_u64(1, 1, 0), c13_ser::ver_u64(1, 0, 65535), c13_ser::ver_u64(1, 1, 1), c13_ser::ver_u64(0, 9, 9), c13_ser::ver_u64(2, 0, 0), c13_ser::ver_u64(1, 2, 0), c13_ser::ver_u64(255, 255, 65535), c13_ser::ver_u64(1, 255, 0)];
+        let mut vints: Vec<u64> = (0..3).map(|_| *r.pick(&vb)).collect();
+        if r.chance(1, 12) { vints[0] = c13_ser::ver_u64(r.below(600) as u16, r.below(600) as u16, r.next() as u16); }
+        vints.push(rand_u64(&mut r));
+        cx.rng = r;
+        c13_ser::complex(cx, k, &ints, &ss, &tail);
+        if k % 2 == 0 { c13_ser::smart_ptr(cx, k / 2, &ints, &ss, &tail); }
+        if k % 2 == 1 { c13_ser::versioning(cx, k / 2, &vints, &ss, &tail); }
+    }
+    // readers and writers under arbitrary histories
+    for k in 0..(if t { 60000 } else { 4400 }) {
+        let mut r = cx.rng.clone();
+        let (data, cfg, ops) = c13_rd::gen_reader_case(&mut r, k);
+        cx.rng = r;
+        c13_rd::reader(cx, k, &data, &cfg, &ops, false);
+    }
+    for k in 0..(if t { 20000 } else { 1500 }) {
+        let mut r = cx.rng.clone();
+        let (cfg, ops) = c13_rd::gen_writer_case(&mut r, k);
+        cx.rng = r;
+        c13_rd::writer(cx, k, &cfg, &ops);
+    }
+    if cx.format_drift { cx.sum.dist("format_drift"); }
+}
+
 pub fn run(args: &Args) {
     let mut cx = Ctx {
         sum: Summary::new("C13", "corpus + boundary values (0, 2^7k +-1, 2^8k +-1, 2^32, 2^63, MAX/MIN) through every strategy with and without trailing bytes; sequences of length 0..9 with large first differences; random byte strings through the single-value decoders; a case is non-trivial when the value needs >1 byte or the sequence has >=2 elements; distinct = distinct canonical case text"),
         shards: CoqShards::new(HEADER, 400),
-        coq_budget: if args.thorough { 24000 } else { 3200 },
+        coq_budget: if args.thorough { 24000 } else { 2400 },
+        coq_budget2: if args.thorough { 12000 } else { 1400 },
+        coq_used2: 0,
+        op_used: Default::default(),
         rng: Rng::new(args.seed),
+        tmp: format!("{}/tmp", args.out),
+        format_drift: false,
+        probe_log: None,
+        case_no: 0,
+        skip: vec![],
     };
+    std::fs::create_dir_all(&cx.tmp).ok();
     if let Some(f) = &args.replay {
         let txt = std::fs::read_to_string(f).expect("replay file");
         let v: Value = serde_json::from_str(&txt).expect("replay json");
+        if v.get("probe").is_some() {
+            // child: run the new cells (or one case) with a case log; the exit status is the answer
+            cx.probe_log = std::fs::File::create(format!("{}/probe.log", args.out)).ok();
+            cx.skip = v["skip"].as_array().map(|a| a.iter().filter_map(|x| x.as_u64()).collect()).unwrap_or_default();
+            if v.get("one").is_some() { run_one(&mut cx, &v["one"]); } else { run_new_cells(&mut cx, args); }
+            std::fs::remove_dir_all(&cx.tmp).ok();
+            return;
+        }
         let c = if v.get("case").is_some() { v["case"].clone() } else { v };
+        if c.get("cell").is_some() {
+            // a case of the newer cells may abort the process: try it in a child first
+            let (ok, _) = probe_child(args, &json!({"probe": true, "one": c}), "one");
+            if !ok {
+                let cell = c["cell"].as_str().unwrap_or("?").to_string();
+                cx.sum.eval(&cell, &c.to_string(), true);
+                cx.sum.fail(&cell, None, c.clone(), "the process aborted (allocation failure / stack overflow / signal) while running this case");
+                let sh = cx.shards.write(&args.out);
+                cx.sum.write(&args.out, sh);
+                return;
+            }
+        }
         run_one(&mut cx, &c);
+        std::fs::remove_dir_all(&cx.tmp).ok();
         let sh = cx.shards.write(&args.out);
         cx.sum.write(&args.out, sh);
         return;
     }
     // 1. corpus (refutation witnesses and minimised past failures) - always evaluated in Coq too
-    if let Ok(rd) = std::fs::read_dir("/verif/corpus/C13") {
+    // (the harness runs with the framework root as working directory)
+    if let Ok(rd) = std::fs::read_dir("corpus/C13").or_else(|_| std::fs::read_dir("/verif/corpus/C13")) {
         let mut files: Vec<_> = rd.filter_map(|e| e.ok()).map(|e| e.path()).collect();
         files.sort();
         for p in files {
             if let Ok(txt) = std::fs::read_to_string(&p) {
                 if let Ok(v) = serde_json::from_str::<Value>(&txt) {
                     let c = if v.get("case").is_some() { v["case"].clone() } else { v };
+                    if c.get("cell").is_some() { continue; } // run with the newer cells, under the probe child
                     run_one(&mut cx, &c);
                     cx.sum.dist("corpus_cases");
                 }
@@ -480,6 +678,24 @@ pub fn run(args: &Args) {
         }
         v += step;
     }
+    // the newer cells feed decoders with trailing bytes; a defect there can abort the process (huge allocation).
+    // A child process runs the same deterministic case stream first; cases that kill it are recorded and skipped.
+    for round in 0..6 {
+        let (ok, last) = probe_child(args, &json!({"probe": true, "skip": cx.skip}), &format!("all{}", round));
+        if ok { break; }
+        match last {
+            Some(l) => {
+                let c = l["case"].clone();
+                let cell = c["cell"].as_str().unwrap_or("?").to_string();
+                cx.sum.fail(&cell, None, c, "the process aborted (allocation failure / stack overflow / signal) while running this case");
+                cx.skip.push(l["n"].as_u64().unwrap_or(0));
+            }
+            None => { cx.sum.notes.push("probe child died before its first case".into()); break; }
+        }
+        if round == 5 { cx.sum.notes.push("more than 5 aborting cases; the newer cells were not run in-process".into()); cx.skip.push(u64::MAX); }
+    }
+    if !cx.skip.contains(&u64::MAX) { run_new_cells(&mut cx, args); }
+    std::fs::remove_dir_all(&cx.tmp).ok();
     cx.sum.dist_max("coq_cases", cx.shards.len() as u64);
     let sh = cx.shards.write(&args.out);
     cx.sum.write(&args.out, sh);
